@@ -407,10 +407,66 @@ def finalize (ctx : Ctx) : Option Failure :=
 /-- the three request contexts (decision, proxy, Envoy) all behave like `finalize` -/
 def contextsAttachChallenge : List Bool := [true, true, true]
 
+/-! ## CEL expressions and the error handler pipeline of a rule -/
+
+/-- what evaluating a compiled CEL expression on a concrete request / subject / error yields
+(`cellib.CompiledExpression.Eval`): `true`, anything else (an `*EvalError`), or a runtime failure of the
+evaluation itself (missing key, index out of range, division by zero …: the error of the CEL program) -/
+inductive Cel where
+  | holds | fails | error
+deriving DecidableEq, Repr
+
+/-- `celAuthorizer.Execute` (and the expressions of the remote authorizer): a false expression is an authorization
+failure, an expression that cannot be evaluated an internal error -/
+def celAuthorize : Cel → Option Err
+  | .holds => none
+  | .fails => some (.chain [.kind .authorization, .foreign])
+  | .error => some (.chain [.kind .internal, .foreign])
+
+/-- a pipeline step `step` guarded by an `if` condition (`conditionalSubjectHandler`): executed if the condition
+holds, skipped if it does not; a condition that cannot be evaluated fails the pipeline with the CEL error itself -/
+def stepIf (c : Cel) (step : Option Err) : Option Err :=
+  match c with
+  | .holds => step
+  | .fails => none
+  | .error => some .foreign
+
+/-- the error handler mechanisms -/
+inductive Handler where
+  | default
+  | redirect (code : Int) (to : String)
+  | www (realm : String)
+deriving DecidableEq, Repr
+
+/-- `Execute` of an error handler mechanism on the failure `cause` -/
+def Handler.exec : Handler → Err → Ctx → Ctx
+  | .default, cause, ctx => { ctx with pipelineError := some cause }
+  | .redirect code to, _, ctx => redirectExec code to ctx
+  | .www realm, _, ctx => wwwAuthenticateExec realm ctx
+
+/-- `compositeErrorHandler.Execute`: the first handler whose condition holds handles the failure; a condition
+that cannot be evaluated ends the handling with the CEL error; if no handler applies the failure itself is
+returned. `some e`: the error returned to the service, `none`: handled, the context carries the pipeline error. -/
+def handleError : List (Cel × Handler) → Err → Ctx → Ctx × Option Err
+  | [], cause, ctx => (ctx, some cause)
+  | (c, h) :: rest, cause, ctx =>
+    match c with
+    | .error => (ctx, some .foreign)
+    | .fails => handleError rest cause ctx
+    | .holds => (h.exec cause ctx, none)
+
 /-- a service answering a request whose pipeline ended in `ctx` -/
 def serve (t : Translator) (cfg : Cfg) (acc : Accept) (ctx : Ctx) : Out :=
   match finalize ctx with
   | none => .allowed
   | some f => t.respond cfg acc f
+
+/-- a service answering a request whose pipeline failed with `cause` (`ruleImpl.Execute` hands the failure to the
+rule's error handlers; an error they return goes to the translator directly, otherwise `Finalize` decides) -/
+def serveFailure (t : Translator) (cfg : Cfg) (acc : Accept) (hs : List (Cel × Handler)) (cause : Err)
+    (ctx : Ctx) : Out :=
+  match handleError hs cause ctx with
+  | (_, some e) => t.respond cfg acc (plain e)
+  | (ctx', none) => serve t cfg acc ctx'
 
 end Heimdall.ErrMap
